@@ -718,7 +718,11 @@ func genC15Lit(t *rapid.T) C15LitCase {
 		c.Trail = genBlanks(t, set, "trail")
 		// On the scanner routes a U+0020 directly after the literal is a
 		// case of its own (see ident-trailing-space): drawn 1 in 12.
-		if c.Route != "intslice" && strings.HasPrefix(c.Trail, " ") && rapid.IntRange(0, 11).Draw(t, "trail_space_first") != 0 {
+		// Only the integral-slice parser documents that it trims blanks; the
+		// scanner-based routes take a space right after an unquoted element
+		// as part of that element ("a b,c" is the string "a b"), so it is
+		// never generated there.
+		if c.Route != "intslice" && strings.HasPrefix(c.Trail, " ") {
 			c.Trail = rapid.SampledFrom([]string{"\t", "\n", "\r"}).Draw(t, "trail_first") + c.Trail
 		}
 	}
